@@ -81,19 +81,40 @@ One(r) == IF r = "" THEN {} ELSE {r}
 (* C22 at a recorded store *)
 BalanceReason(I) == IF I.u.with - I.u.take = I.ncs THEN "" ELSE "hook_balance"
 
+(* suspended CLP(Z) constraints, operands resolved through the store's own substitution *)
+ZSetOf(A) == {<<c[1], Walk(c[2], A.smap), Walk(c[3], A.smap), Walk(c[4], A.smap)>> :
+                 c \in {d \in A.cs : d[1] \in {"plusz", "timesz"}}}
+
+(* store_op of an FD case ("fd" flag): any propagation strength is accepted, but no solution
+   of what has been posted may be lost, and failure must be justified *)
+FdCaseVals == [{V(cur.vars[i]) : i \in 1..Len(cur.vars)} -> {Num(n) : n \in cur.win[1]..cur.win[2]}]
+FdStoreOpReason(rec, I) ==
+  LET now == Append(posted, rec.op)
+      SatAll(ops, val) == \A i \in 1..Len(ops) : SatGoal(ops[i], val)
+  IN FirstReason(<<
+       IF rec.ok /\ \E val \in FdCaseVals : SatAll(now, val) /\ ~SatStore(I, val) THEN "fd_solution_lost" ELSE "",
+       IF ~rec.ok /\ \E val \in FdCaseVals : SatAll(now, val) THEN "fd_wrong_failure" ELSE "",
+       IF Acyclic(I.smap) THEN "" ELSE "cyclic_substitution",
+       BalanceReason(I)
+     >>)
+
 (* store_op: the specification takes the same step *)
 StoreOpReason(rec, Snext, specOk, I) ==
   FirstReason(<<
     IF rec.ok = specOk THEN "" ELSE (IF specOk THEN "spurious_failure" ELSE "spurious_success"),
     IF Acyclic(I.smap) THEN "" ELSE "cyclic_substitution",
     IF ~Acyclic(I.smap) \/ TreeStoreEquiv(Snext, I) THEN "" ELSE "store_not_equivalent",
+    IF ~Acyclic(I.smap) \/ ZSetOf(Snext) = ZSetOf(I) THEN "" ELSE "z_constraints_differ",
     BalanceReason(I),
-    (* process_extension saw exactly the new bindings of a successful unification *)
+    (* process_extension saw exactly the new bindings of a successful unification: a subset of
+       the bindings added by this step (constraint propagation may add more), as many as the
+       specification's unification adds *)
     IF rec.op[1] \in {"unify", "eq"} /\ rec.ok
     THEN (IF Len(I.u.exts) = Len(prevI.u.exts) + 1
              /\ LET e == I.u.exts[Len(I.u.exts)] IN
-                {<<x, e[x]>> : x \in DOMAIN e}
-                  = {<<x, I.smap[x]>> : x \in DOMAIN I.smap} \ {<<x, prevI.smap[x]>> : x \in DOMAIN prevI.smap}
+                /\ {<<x, e[x]>> : x \in DOMAIN e}
+                     \subseteq {<<x, I.smap[x]>> : x \in DOMAIN I.smap} \ {<<x, prevI.smap[x]>> : x \in DOMAIN prevI.smap}
+                /\ (~specOk \/ Cardinality(DOMAIN e) = Cardinality(DOMAIN Snext.u.exts[Len(Snext.u.exts)]))
           THEN "" ELSE "extension_mismatch")
     ELSE (IF Len(I.u.exts) = Len(prevI.u.exts) THEN "" ELSE "extension_on_failure"),
     IF rec.ok \/ (I.smap = prevI.smap /\ I.cs = prevI.cs /\ I.ds = prevI.ds) THEN "" ELSE "failure_changed_store"
@@ -234,6 +255,11 @@ Next ==
      THEN /\ cur' = Rec.c /\ seen' = {} /\ rej' = rej
           /\ S' = InitK(IF "k" \in DOMAIN Rec.c THEN Rec.c.k ELSE 0) /\ prevI' = InitK(0)
           /\ posted' = <<>> /\ got' = <<>> /\ fin' = <<>> /\ nok' = nok /\ hist' = hist
+     ELSE IF Rec.k = "store_op" /\ Flag("fd")
+     THEN LET I == StoreOfJson(Rec.s) IN
+          /\ Note(FdStoreOpReason(Rec, I))
+          /\ posted' = IF Rec.ok THEN Append(posted, Rec.op) ELSE posted
+          /\ prevI' = I /\ UNCHANGED <<cur, S, got, fin, nok, hist>>
      ELSE IF Rec.k = "store_op"
      THEN LET S1 == Post(S, Rec.op)
               Snext == IF S1.ok THEN S1 ELSE S
